@@ -48,7 +48,7 @@ impl PerClientStats {
     }
 
     // visible for testing
-    #[cfg(test)]
+    #[cfg(any(test, roughenough_verif))]
     pub fn with_limit(limit: usize) -> Self {
         PerClientStats {
             clients: AHashMap::with_capacity(limit),
